@@ -460,6 +460,8 @@ class Sched(object):
         if self.aborting:
             raise SimAbort()
         self.step += 1
+        if self.step > self.step_cap:
+            self._abort(Verdict("step-cap", "more than %d steps" % self.step_cap))
         cur = self.current
         threads = self.threads
         others = None
@@ -471,8 +473,6 @@ class Sched(object):
                     others.append(t)
         if others is None:
             return
-        if self.step > self.step_cap:
-            self._abort(Verdict("step-cap", "more than %d steps" % self.step_cap))
         d = self.decider.decide(self, True, others, kind)
         if d:
             self.trace[self.step] = d
@@ -529,6 +529,10 @@ class Sched(object):
         global _ACTIVE
         if _ACTIVE is not None:
             raise HarnessError("nested simulation")
+        import gc
+
+        gc_was = gc.isenabled()
+        gc.disable()
         _ACTIVE = self
         try:
             self.decider.start(self)
@@ -551,6 +555,8 @@ class Sched(object):
                         self.harness_error = "thread %r did not unwind: %s" % (t, self._stacks())
         finally:
             _ACTIVE = None
+            if gc_was:
+                gc.enable()
         if self.harness_error:
             raise HarnessError(self.harness_error)
         return self.verdict
@@ -589,7 +595,7 @@ def _line_cb(code, line):
             raise SimAbort()
         return
     step = s.step + 1
-    if step < s.decider.next_line_step:
+    if step < s.decider.next_line_step and step <= s.step_cap:
         s.step = step
         return
     # slow path: a decision is due
@@ -597,13 +603,13 @@ def _line_cb(code, line):
     if cur is None or cur.ident != _thread.get_ident():
         return
     s.step = step
+    if step > s.step_cap:
+        s._abort(Verdict("step-cap", "more than %d steps" % s.step_cap))
     others = [t for t in s.threads if t.state == RUNNABLE and t is not cur]
     if not others:
         # nobody to switch to; let the decider re-arm
         s.decider.rearm(s)
         return
-    if step > s.step_cap:
-        s._abort(Verdict("step-cap", "more than %d steps" % s.step_cap))
     d = s.decider.decide(s, True, others, "line")
     if d:
         s.trace[step] = d
